@@ -64,6 +64,10 @@ def facts_tag(vc, j, t):
     c.fact(TVL(j, t) >= 0)
     if c.aux.get("accepted"):
         c.fact(TVL(j, t) <= 255)
+    if c.aux.get("plain"):
+        # complement of known finding C01/enc-tag-on-plain-component: a component that is not marked for
+        # encryption does not carry the tag ENC (0xC2) = SESSIONKEY (02)
+        c.fact(z3.Not(z3.And(TK(j, t) == 0xC2, TVL(j, t) == 1, TVB(j, t, 0) == 2)))
 
 
 def distinct_tags(vc, j):
@@ -116,6 +120,7 @@ def make_file(vc, M, with_stub=True, name="f", plain=False, accepted=False):
     if accepted:
         vc.ctx.aux["accepted"] = True
     n = vc.int("n", 0)
+    vc.ctx.aux["small_ufs"] = {"M", "BL", "AL", "TVL"}
     Comp = M.Bf3Component
 
     def elem(j):
@@ -202,7 +207,7 @@ def payloads_rope(vc, lo, hi, key):
     return bigcat(name, lo, hi, lambda j: RAW(vc, j, key), lambda j: rawlen(vc, jt(j)), min_len=1)
 
 
-def concretise_comps(model, n, max_n=6, max_len=300, max_tags=6):
+def concretise_comps(model, n, max_n=6, max_len=300, max_tags=12):
     """concrete component list (the `comps` input of concrete mode) from a z3 model of the abstract file"""
     def ev(t):
         return model.eval(t, model_completion=True)
